@@ -11,6 +11,8 @@
 (*   extend  the same per element, with the iterator-length assertion      *)
 (*   get     LoadBucket, LoadActive, ReadData                              *)
 (*   count   LoadInflight                                                  *)
+(*   snap    snapshot(start): LoadInflight, then per index LoadBucket       *)
+(*           (again after stepping over a bucket end), LoadActive, ReadData *)
 (*   drop    the bucket walk of Drop for Vec                               *)
 (*                                                                         *)
 (* C09 is carried by a finite "known writes" abstraction of happens-before:*)
@@ -30,7 +32,7 @@ CONSTANTS Threads, NB, SKIPLOG, Progs, Ords
 
 \* Ords: record site |-> "rlx" | "acq" | "rel" | "acqrel" | "sc" for the sites
 \*   fa (inflight.fetch_add), lb_push (bucket load in push/extend), cas_ok, cas_fail (get_or_alloc),
-\*   sa_push, sa_ext (active.store), lb_get (bucket load in get), la_get (active load in get), cnt (inflight load)
+\*   sa_push, sa_ext (active.store), lb_get (bucket load in get / iteration), la_get (active load in get / iteration), cnt (inflight load)
 Acq(o) == o \in {"acq", "acqrel", "sc"}
 Rel(o) == o \in {"rel", "acqrel", "sc"}
 
@@ -72,8 +74,8 @@ Unch(vs) == UNCHANGED vs
 
 \* ---- call start -----------------------------------------------------------------------------------------------
 StartBody(t, op) ==
-  /\ pc' = [pc EXCEPT ![t] = IF op.k = "get" THEN "g_lb" ELSE IF op.k = "count" THEN "c_ld" ELSE "fa"]
-  /\ lc' = [lc EXCEPT ![t] = [idx |-> IF op.k = "get" THEN op.i ELSE 0,
+  /\ pc' = [pc EXCEPT ![t] = IF op.k = "get" THEN "g_lb" ELSE IF op.k = "count" THEN "c_ld" ELSE IF op.k = "snap" THEN "s_cnt" ELSE "fa"]
+  /\ lc' = [lc EXCEPT ![t] = [idx |-> IF op.k = "get" THEN op.i ELSE IF op.k = "snap" THEN op.start ELSE 0,
                               n |-> IF op.k \in {"push", "pushpanic"} THEN 1 ELSE IF op.k = "ext" THEN op.rep ELSE 0,
                               j |-> 0,
                               vals |-> IF op.k \in {"push", "pushpanic"} THEN <<op.v>> ELSE IF op.k = "ext" THEN op.vals ELSE <<>>,
@@ -202,7 +204,9 @@ Panic(t) ==
 
 Return(t) ==
   /\ pc[t] = "ret"
-  /\ done' = done \cup {[t |-> t, k |-> Op(t).k, idx |-> lc[t].idx, n |-> lc[t].j, panicked |-> FALSE, res |-> lc[t].res]}
+  /\ done' = done \cup {IF Op(t).k = "snap"
+                         THEN [t |-> t, k |-> "snap", idx |-> lc[t].idx, n |-> lc[t].res, panicked |-> FALSE, res |-> lc[t].res, items |-> lc[t].vals]
+                         ELSE [t |-> t, k |-> Op(t).k, idx |-> lc[t].idx, n |-> lc[t].j, panicked |-> FALSE, res |-> lc[t].res]}
   /\ pc' = [pc EXCEPT ![t] = "idle"] /\ prog' = [prog EXCEPT ![t] = Tail(@)]
   /\ Unch(<<inflight, bptr, allocs, nalloc, ent, lc, kn, relk, dropped, vecgone, bad>>)
 
@@ -243,6 +247,47 @@ GetReturn(t) ==
   /\ pc' = [pc EXCEPT ![t] = "idle"] /\ prog' = [prog EXCEPT ![t] = Tail(@)]
   /\ Unch(<<inflight, bptr, allocs, nalloc, ent, lc, kn, relk, dropped, vecgone>>)
 
+\* ---- snapshot(start): a deterministically sized iteration -----------------------------------------------------
+\* lc.idx = next index, lc.n = end, lc.b / lc.j = the iterator's bucket / entry within it, lc.vals = what was yielded
+\* (<<index, value or 0>>), lc.res = number of items yielded
+SnapCount(t) ==
+  /\ pc[t] = "s_cnt" /\ lc[t].idx <= inflight /\ lc[t].idx < Cap
+  /\ kn' = [kn EXCEPT ![t] = LoadK(t, LocInflight, Ords.cnt)]
+  /\ LET end == IF inflight > Cap THEN Cap ELSE inflight IN
+     /\ lc' = [lc EXCEPT ![t].n = end, ![t].b = BucketOf(lc[t].idx), ![t].j = EntryOf(lc[t].idx)]
+     /\ pc' = [pc EXCEPT ![t] = IF lc[t].idx = end THEN "ret" ELSE "s_lb"]
+  /\ Unch(<<inflight, bptr, allocs, nalloc, ent, prog, relk, dropped, done, vecgone, bad>>)
+SnapAdvance(l, y) == [l EXCEPT !.idx = @ + 1, !.j = @ + 1, !.vals = Append(@, y), !.res = @ + 1]
+SnapLoadBucket(t) ==
+  /\ pc[t] = "s_lb"
+  /\ LET b == lc[t].b IN
+     /\ kn' = [kn EXCEPT ![t] = LoadK(t, LocBkt(b), Ords.lb_get)]
+     /\ IF lc[t].j >= BLen(b)
+        THEN \* the entry index ran off the bucket: step to the next bucket and load again
+             /\ lc' = [lc EXCEPT ![t].b = b + 1, ![t].j = 0] /\ Unch(pc)
+        ELSE IF bptr[b] = 0
+        THEN \* a bucket nobody has allocated yet: the index is yielded as "not there"
+             LET l2 == SnapAdvance(lc[t], <<lc[t].idx, 0>>) IN
+             /\ lc' = [lc EXCEPT ![t] = l2] /\ pc' = [pc EXCEPT ![t] = IF l2.idx = l2.n THEN "ret" ELSE "s_lb"]
+        ELSE /\ lc' = [lc EXCEPT ![t].e = bptr[b]] /\ pc' = [pc EXCEPT ![t] = "s_la"]
+  /\ Unch(<<inflight, bptr, allocs, nalloc, ent, prog, relk, dropped, done, vecgone, bad>>)
+SnapLoadActive(t) ==
+  /\ pc[t] = "s_la"
+  /\ bad' = IF <<"b", lc[t].e>> \in kn[t] THEN bad ELSE "race-bucket-memory"
+  /\ kn' = [kn EXCEPT ![t] = LoadK(t, LocAct(lc[t].idx), Ords.la_get)]
+  /\ IF ent[lc[t].idx].active
+     THEN pc' = [pc EXCEPT ![t] = "s_rd"] /\ Unch(lc)
+     ELSE LET l2 == SnapAdvance(lc[t], <<lc[t].idx, 0>>) IN
+          lc' = [lc EXCEPT ![t] = l2] /\ pc' = [pc EXCEPT ![t] = IF l2.idx = l2.n THEN "ret" ELSE "s_lb"]
+  /\ Unch(<<inflight, bptr, allocs, nalloc, ent, prog, relk, dropped, done, vecgone>>)
+SnapRead(t) ==
+  /\ pc[t] = "s_rd"
+  /\ bad' = IF <<"e", lc[t].idx>> \notin kn[t] THEN "race-entry-read"
+            ELSE IF ent[lc[t].idx].slot = 0 \/ ~ent[lc[t].idx].filled THEN "read-of-unwritten-entry" ELSE bad
+  /\ LET l2 == SnapAdvance(lc[t], <<lc[t].idx, ent[lc[t].idx].slot>>) IN
+     lc' = [lc EXCEPT ![t] = l2] /\ pc' = [pc EXCEPT ![t] = IF l2.idx = l2.n THEN "ret" ELSE "s_lb"]
+  /\ Unch(<<inflight, bptr, allocs, nalloc, ent, prog, kn, relk, dropped, done, vecgone>>)
+
 \* ---- count ----------------------------------------------------------------------------------------------------
 CountLoad(t) ==
   /\ pc[t] = "c_ld"
@@ -269,7 +314,7 @@ DropVec ==
 
 Next == (\E t \in Threads : Start(t) \/ FetchAdd(t) \/ Eager(t) \/ Alloc(t) \/ Cas(t) \/ LoadBucket(t) \/ Fill(t) \/ WriteSlot(t)
                              \/ StoreActive(t) \/ Panic(t) \/ Return(t) \/ GetLoadBucket(t) \/ GetLoadActive(t) \/ GetRead(t)
-                             \/ GetReturn(t) \/ CountLoad(t))
+                             \/ GetReturn(t) \/ CountLoad(t) \/ SnapCount(t) \/ SnapLoadBucket(t) \/ SnapLoadActive(t) \/ SnapRead(t))
         \/ DropVec
 Spec == Init /\ [][Next]_vars
 
@@ -280,6 +325,12 @@ ActiveWritten == \A idx \in 0..(Cap-1) : ent[idx].active => (ent[idx].slot # 0 /
 DistinctIndices ==
   \A a, b \in {d \in done : d.k \in {"push", "ext"} /\ d.n > 0} :
       a # b => (a.idx + a.n <= b.idx \/ b.idx + b.n <= a.idx)
+\* a completed iteration yielded start..end-1 in order, each once, and the value of every entry whose push had
+\* returned before the iteration began
+SnapshotsExact ==
+  \A d \in {x \in done : x.k = "snap"} :
+     /\ \A k \in 1..Len(d.items) : d.items[k][1] = d.idx - Len(d.items) + k - 1
+     /\ \A k \in 1..Len(d.items) : d.items[k][2] # 0 => ent[d.items[k][1]].slot = d.items[k][2]
 \* C09
 RaceFree == bad \notin {"race-bucket-memory", "race-entry-read"}
 \* C11
